@@ -176,6 +176,15 @@ def directed(run):
                                   ("foreign", [B1], 0), ("foreign+own", [B1, A1], 0), ("other", None, 5), ("other-foreign", [A1], 5)]:
         o, r = ORIGINS[rp_origin]
         add("allow/" + tag, store_kind="ref", content=content, user={"script": [USER_OK]}, ops=[auth_op(rng, origin=o, rp_id=r, allow=allow)])
+    # allow lists whose descriptors carry a `type` other than "public-key": a non-empty list stays a non-empty list (an
+    # unregistered id is "no eligible credential", never a fall-back to the RP's discoverable credential)
+    for kind in ("ref", "option"):
+        cont = content if kind == "ref" else content[:1]
+        for tag, allow, tys in [("unknown-type-miss", [bytes(16)], [False]), ("unknown-type-misses", [bytes(16), bytes([1]) * 16], [False, False]),
+                                ("unknown-type-hit", [A1], [False]), ("mixed-miss", [bytes(16), bytes([2]) * 16], [False, True])]:
+            o1 = auth_op(rng, allow=allow); o1["req"]["allow_ty"] = tys
+            o2 = auth_op(rng, allow=allow, cd=cd_mode(rng, 2)); o2["req"]["allow_ty"] = tys
+            add("allow-typed/%s/%s" % (kind, tag), store_kind=kind, content=cont, user={"script": [USER_OK] * 2}, ops=[o1, o2])
     # no credential at all / for this RP, with and without consent
     for tag, script in [("consent", USER_OK), ("denied", {"presence": False, "verification": False}), ("uv-missing", {"presence": True, "verification": False}), ("err", {"err": 0x27})]:
         add("empty/" + tag, store_kind="ref", user={"script": [script]}, ops=[auth_op(rng, uv="required")])
